@@ -17,6 +17,7 @@ from ..worlds import relay
 ID = "C13"
 LEVEL = "exploration"
 CHUNK = 40
+CHUNK_DEADLINE = 600       # (long flavours: crowds, soaks, wide events; shared machines)
 BUDGET = {"quick": {"runs": 2500, "wall": 150}, "thorough": {"runs": 100000, "wall": 1200}}
 RULE = ("1-3 connections x scripts of 3-14 frames over REQ (valid, empty, partly and wholly invalid "
         "filter lists; fresh, reused, non-string and hostile ids), CLOSE (open / unknown id), EVENT, "
